@@ -317,7 +317,7 @@ _MAKE_LIKE_ROLES = (
 
 def _make_like(tree):
     if not hasattr(tree, "_canon_make_like"):
-        tree._canon_make_like = util.canonicalise(tree.func(BASE, "Base.make_like"), _MAKE_LIKE_ROLES)[0]
+        tree._canon_make_like = util.canonicalise(tree.func_inlined(BASE, "Base.make_like", exclude=("_calc_hash", "_ast_serialize", "_arg_serialize")), _MAKE_LIKE_ROLES)[0]
     return tree._canon_make_like
 
 
@@ -879,6 +879,8 @@ def c06_bypass(R):
             fn = _new(tree)  # locals named by role
         elif mm.path == BASE and q == "Base.make_like":
             fn = _make_like(tree)
+        elif mm.path == BASE and q.startswith("Base.") and q.split(".", 1)[1] in (frozenset(getattr(_make_like(tree), "_inlined", ())) | frozenset(getattr(_new(tree), "_inlined", ()))):
+            continue  # a private helper of the two sanctioned sites: judged as part of them
         for c in (x for x in walk_no_nested(fn) if isinstance(x, ast.Call)):
             f = c.func
             if isinstance(f, ast.Attribute) and f.attr == "__new__" and isinstance(f.value, ast.Call) and dotted(f.value.func) == "super":
@@ -892,7 +894,16 @@ def c06_bypass(R):
                 )
                 # dominated by a failed lookup
                 facts = [(ast.unparse(t), pol) for t, pol in guards.guards_of(c)]
-                ok = any(t in ("self is None",) and pol for t, pol in facts) or any(t == "cached_ast is not None" and not pol for t, pol in facts)
+                # the result of the table lookup: whatever local is assigned from <table>.get(<hash>, None)
+                looked = {
+                    tg.id
+                    for st in walk_no_nested(fn)
+                    if isinstance(st, ast.Assign)
+                    for tg in st.targets
+                    if isinstance(tg, ast.Name)
+                    and any(isinstance(x, ast.Call) and isinstance(x.func, ast.Attribute) and x.func.attr == "get" for x in ast.walk(st.value))
+                }
+                ok = any((t == f"{nm} is None" and pol) or (t == f"{nm} is not None" and not pol) for t, pol in facts for nm in looked)
                 R.check(
                     ok,
                     mm,
@@ -1024,7 +1035,7 @@ def c06_pyhash(R):
 @rule(
     "C07.route",
     props=("C07",),
-    floor=2,
+    floor=1,
     family="PAIR",
     desc="every result of simplifications.simplify flows through operations._handle_annotations (or carries the "
     "simplifier's own `annotated` flag) before it is returned or used to build a node",
@@ -1065,7 +1076,7 @@ def c07_route(R):
                 f"an argument also drops that argument's non-eliminatable and relocatable annotations",
                 construct=util.anon(st, fn),
             )
-    R.need(n >= 2, f"only {n} call sites of simplifications.simplify found")
+    R.need(n >= 1, f"only {n} call sites of simplifications.simplify found")
 
 
 @rule(
@@ -1336,7 +1347,7 @@ def c07_resimp(R):
     tree = R.tree
     path = "claripy/algorithm/simplify.py"
     m = tree.mod(path)
-    fn = tree.func(path, "simplify")
+    fn = tree.func_inlined(path, "simplify")
     blk = [st for st in fn.body if isinstance(st, ast.If) and ast.unparse(st.test) == "expr.annotations"]
     R.need(len(blk) == 1, "simplify: annotation re-attachment block not found")
     Fr = util.Frags(fn)
